@@ -654,6 +654,13 @@ func (s *Session) InRead() bool {
 	return s.inRead
 }
 
+// Idle reports whether every byte typed so far has been read by the library.
+func (s *Session) Idle() bool {
+	s.mu.Lock()
+	defer s.mu.Unlock()
+	return s.outstanding == 0 && s.T.Pending() == 0
+}
+
 // LastWaitKind is the kind ("main" / "arg") of the most recent input wait. To be called from a
 // step action (Readline goroutine).
 func (s *Session) LastWaitKind() string {
